@@ -3,7 +3,7 @@
 use crate::adapter::{configs, Config, STD};
 use crate::engine::{Ctx, Input, Line, Rec, Tier, Verdict};
 use crate::gen::sentence::{adversarial_events, events_to_input};
-use crate::props::hist::{self, judge_history, render_steps, SEQ};
+use crate::props::hist::{judge_history, render_steps, SEQ};
 use crate::refmodel::armor::ALPHABET;
 use crate::refmodel::build::{self, Cks, Spec};
 use crate::refmodel::seq::Pred;
@@ -14,9 +14,6 @@ pub fn check(_sub: &str, cfg: &'static dyn Config, input: &Input, rec: &mut Rec)
         Input::History { lines } => lines,
         _ => crate::engine::infra_error("C06 expects a history"),
     };
-    if cfg.name() == "none" && hist::exceeds_noalloc_capacity(lines) {
-        return Verdict::Excluded("exceeds the no-allocator capacity (C18 decides those)");
-    }
     let (steps, fail) = judge_history(cfg, lines, SEQ);
     rec.evals += lines.len() as u64;
     rec.nontrivial = steps.iter().any(|(_, i)| i.gate_pass && i.k >= 2);
@@ -109,6 +106,7 @@ pub fn run(ctx: &mut Ctx) {
     let n = ctx.tier.pick(20_000, 1_000_000);
     let strat = || adversarial_events(40).prop_map(|e| events_to_input(&e));
     ctx.run_proptest("random-histories", &STD, n, strat(), check);
+    ctx.run_proptest("capacity-groups", &crate::adapter::NONE, n / 4, crate::props::c18::capacity_histories(), check);
     if ctx.tier == Tier::Thorough {
         for cfg in configs().into_iter().skip(1) {
             exhaustive(ctx, cfg, 4);
